@@ -202,12 +202,17 @@ package z
 //@ spec GcChain(b *Buffer) bool = gcAllocated(gcOffs) && len(gcOffs) >= 1 && gcOffs[0] == int(b.padding) && gcOffs[len(gcOffs)-1] == int(b.offset) && forall i int :: 0 <= i && i < len(gcOffs)-1 ==> gcOffs[i] >= int(b.padding) && gcOffs[i]+8 <= int(b.offset) && GcBE64(b, gcOffs[i]) <= uint64(int(b.offset)-gcOffs[i]-8) && gcOffs[i+1] == gcOffs[i]+8+int(GcBE64(b, gcOffs[i]))
 
 // SliceOffsets returns exactly the offsets of the chain, in order (for an empty buffer: the start offset alone).
-// (work in progress: the cursor invariant is not preserved within the time limit; tagged wip, in no cone)
+// (work in progress: 28 of 29 obligations discharge; the preservation of invariant c2a - the cursor is -1 only
+// after the last slice - is undecided within the time limit, so the clauses stay tagged wip, in no cone)
 //@ func (b *Buffer) SliceOffsets() []int
 //@   requires GcWfBuffer(b) && GcBufRoom(b, 0) && GcChain(b)
 //@   loop 1 invariant #own cap(offsets) == 0 || gcFresh(offsets)
 //@   loop 1 invariant #prefix 0 <= len(offsets) && forall i int :: 0 <= i && i < len(offsets) ==> offsets[i] == gcOffs[i]
-//@   loop 1 invariant #cursor len(offsets) < len(gcOffs) && (len(offsets) <= len(gcOffs)-1 || len(offsets) == 1) && next == ite(len(offsets) < len(gcOffs)-1 || len(offsets) == 0, gcOffs[len(offsets)], -1)
+//@   at call Slice#1 assert #h-next (len(offsets) < len(gcOffs)-1 ==> gcOffs[len(offsets)]+8 <= int(b.offset)) && (len(offsets) == len(gcOffs)-1 ==> gcOffs[len(offsets)] == int(b.offset))
+//@   loop 1 invariant #c1 len(offsets) <= len(gcOffs) && (len(offsets) < len(gcOffs) || len(gcOffs) == 1)
+//@   loop 1 invariant #c2a next == -1 ==> len(offsets) >= 1 && len(offsets) >= len(gcOffs)-1
+//@   loop 1 invariant #c2b next != -1 ==> next >= 0 && (len(offsets) == 0 || len(offsets) < len(gcOffs)-1)
+//@   loop 1 invariant #c3 next != -1 ==> next == gcOffs[len(offsets)] && len(offsets) < len(gcOffs)
 //@   ensures [wip] #count len(result) == ite(len(gcOffs) == 1, 1, len(gcOffs)-1)
 //@   ensures [wip] #offsets forall i int :: 0 <= i && i < len(result) ==> result[i] == gcOffs[i]
 
